@@ -47,6 +47,9 @@ def remove_mm_fields_if_present(raw_block_hex, leave_btcblock=True, hex=True):
         block = rlp.decode(bytes.fromhex(raw_block_hex))
     except Exception as e:
         raise ValueError(e)
+    # Sanity validation: must be a list
+    if type(block) != list:
+        raise ValueError("Block header must be a list")
     # Sanity validation: list length (w/wo/umm_root and/or mm fields)
     num_fields = len(block)
     if num_fields not in [17, 18, 19, 20]:
@@ -85,10 +88,16 @@ def get_coinbase_txn(raw_block_hex):
         block = rlp.decode(bytes.fromhex(raw_block_hex))
     except Exception as e:
         raise ValueError(e)
+    # Sanity validation: must be a list
+    if type(block) != list:
+        raise ValueError("Block header must be a list")
     # Sanity validation: list length (w/wo/umm_root)
     num_fields = len(block)
     if num_fields not in [19, 20]:
         raise ValueError("Block header must have 19 or 20 elements, got %d", num_fields)
+    # Sanity validation: the coinbase transaction must be a byte string
+    if type(block[-1]) != bytes:
+        raise ValueError("Coinbase transaction must be a byte string")
     return block[-1].hex()
 
 
